@@ -19,6 +19,8 @@
 //! Part E (end to end): S1 is the REAL `StandardSpawner` (DNS stub with 8 distinct addresses), S2 scripted, the
 //! system runs its REAL `run` loop; reports are put on the channel the source tasks hold. ALL words of length
 //! 4 / 5 / 6 over {W wait 1.1 s, RD RN RU report for S1's live source, M S2 creates, rD rN rU report for S2's}.
+//! Part B (backpressure, both tiers): the owner sits inside `try_spawn` behind a harness gate, its 32-slot notification
+//! channel is filled (empty / one free / full) through the sender the system uses, then its source(s) report.
 //! Part K (soak, one deterministic run): nothing is injected; the real source task gives up by itself.
 use std::collections::{BTreeMap, BTreeSet};
 use std::future::Future;
@@ -151,6 +153,8 @@ pub(super) struct MockLog {
 pub(super) struct MockSpawner {
     id: SpawnerId,
     log: Arc<Mutex<MockLog>>,
+    /// `false`: wants one spawn attempt (part B: to get the spawner task into `try_spawn`)
+    complete: bool,
 }
 
 impl MockSpawner {
@@ -161,6 +165,7 @@ impl MockSpawner {
             MockSpawner {
                 id,
                 log: log.clone(),
+                complete: true,
             },
             id,
             log,
@@ -173,10 +178,11 @@ impl Spawner for MockSpawner {
 
     async fn try_spawn(&mut self, _action_tx: &mpsc::Sender<SpawnEvent>) -> Result<(), Self::Error> {
         self.log.lock().unwrap().try_spawn += 1;
+        self.complete = true;
         Ok(())
     }
     fn is_complete(&self) -> bool {
-        true // creations are emitted on demand by the harness, with this spawner's id
+        self.complete // creations are emitted on demand by the harness, with this spawner's id
     }
     async fn handle_source_removed(&mut self, e: SourceRemovedEvent) -> Result<(), Self::Error> {
         self.log
@@ -1183,6 +1189,359 @@ pub(super) fn judge_e2e(evs: &[E2], obs: &E2Obs) -> (Option<Finding>, E2Stats) {
 }
 
 // ---------------------------------------------------------------------------------------------
+// Part B: backpressure — the report arrives while the owner's notification channel is full
+// ---------------------------------------------------------------------------------------------
+
+/// Forwarding adapter: every trait method delegates unchanged; `try_spawn` stays inside the attempt until the
+/// harness opens the gate (a spawner may legitimately spend seconds there: DNS, NTS key exchange). While it does,
+/// the spawner task does not drain its notification channel.
+pub(super) struct Gated<S> {
+    inner: S,
+    gate: tokio::sync::watch::Receiver<bool>,
+    entered: Arc<std::sync::atomic::AtomicBool>,
+}
+
+impl<S: Spawner + Send> Spawner for Gated<S> {
+    type Error = S::Error;
+    async fn try_spawn(&mut self, action_tx: &mpsc::Sender<SpawnEvent>) -> Result<(), Self::Error> {
+        self.inner.try_spawn(action_tx).await?;
+        self.entered.store(true, std::sync::atomic::Ordering::SeqCst);
+        let _ = self.gate.wait_for(|open| *open).await;
+        Ok(())
+    }
+    fn is_complete(&self) -> bool {
+        self.inner.is_complete()
+    }
+    async fn handle_source_removed(&mut self, e: SourceRemovedEvent) -> Result<(), Self::Error> {
+        self.inner.handle_source_removed(e).await
+    }
+    async fn handle_registered(&mut self, e: SourceCreateParameters) -> Result<(), Self::Error> {
+        self.inner.handle_registered(e).await
+    }
+    fn get_id(&self) -> SpawnerId {
+        self.inner.get_id()
+    }
+    fn get_addr_description(&self) -> String {
+        self.inner.get_addr_description()
+    }
+    fn get_description(&self) -> &'static str {
+        self.inner.get_description()
+    }
+}
+
+#[derive(Clone, Copy, PartialEq, Eq, Hash, Debug)]
+pub(super) enum Fill {
+    Empty,
+    OneFree,
+    Full,
+}
+
+#[derive(Clone, PartialEq, Eq, Hash, Debug)]
+pub(super) struct BCase {
+    /// true: the real StandardSpawner behind the gate; false: a recording spawner
+    pub(super) real: bool,
+    pub(super) fill: Fill,
+    /// one report per live source, in creation order (the real spawner has one source)
+    pub(super) kinds: Vec<Kind>,
+}
+
+pub(super) fn fmt_b(c: &BCase) -> String {
+    format!(
+        "{};{};{}",
+        if c.real { 's' } else { 'm' },
+        match c.fill {
+            Fill::Empty => 'E',
+            Fill::OneFree => '1',
+            Fill::Full => 'F',
+        },
+        c.kinds.iter().map(|k| k.ch()).collect::<String>()
+    )
+}
+
+pub(super) fn parse_b(s: &str) -> Option<BCase> {
+    let p: Vec<&str> = s.trim().split(';').collect();
+    if p.len() != 3 {
+        return None;
+    }
+    Some(BCase {
+        real: match p[0] {
+            "s" => true,
+            "m" => false,
+            _ => return None,
+        },
+        fill: match p[1] {
+            "E" => Fill::Empty,
+            "1" => Fill::OneFree,
+            "F" => Fill::Full,
+            _ => return None,
+        },
+        kinds: p[2].chars().map(Kind::from_ch).collect::<Option<Vec<_>>>()?,
+    })
+}
+
+pub(super) fn b_cases() -> Vec<BCase> {
+    let mut v = Vec::new();
+    for real in [false, true] {
+        for fill in [Fill::Empty, Fill::OneFree, Fill::Full] {
+            for k in Kind::ALL {
+                v.push(BCase { real, fill, kinds: vec![k] });
+            }
+        }
+    }
+    for fill in [Fill::OneFree, Fill::Full] {
+        for a in Kind::ALL {
+            for b in Kind::ALL {
+                v.push(BCase { real: false, fill, kinds: vec![a, b] });
+            }
+        }
+    }
+    v
+}
+
+#[derive(Clone, PartialEq, Eq, Hash, Debug, Default)]
+pub(super) struct BObs {
+    pub(super) stalled_in_try_spawn: bool,
+    pub(super) sources_before: usize,
+    pub(super) idle_events_queued: usize,
+    pub(super) channel_was_full: bool,
+    /// the reports had not all returned when the harness was about to open the gate
+    pub(super) report_waited_for_capacity: bool,
+    pub(super) deadman: bool,
+    pub(super) outcomes: Vec<Outcome>,
+    /// reported sources still in the table afterwards
+    pub(super) left_in_table: usize,
+    /// recording spawner: everything it was told, in creation indices
+    pub(super) told: Vec<Told>,
+    /// real spawner: lookups when the report was made / at the end, addresses of sources created after the report
+    pub(super) lookups_at_report: usize,
+    pub(super) lookups_end: usize,
+    pub(super) new_sources: Vec<String>,
+}
+
+pub(super) fn run_b(c: &BCase) -> BObs {
+    let c = c.clone();
+    super::block_on_paused(async move {
+        use crate::daemon::spawn::SystemEvent;
+        use std::sync::atomic::{AtomicBool, Ordering};
+        let mut obs = BObs::default();
+        let mut sys = sp::Sys::new();
+        let (gate_tx, gate_rx) = tokio::sync::watch::channel(false);
+        let entered = Arc::new(AtomicBool::new(false));
+        let raw = dns_raw();
+        let mut tap = None;
+        let mut log = None;
+        let mut ids: Vec<ClockId> = Vec::new();
+        if c.real {
+            let (addr, t) = dns::scripted("pool.gt.test", PORT, &raw);
+            tap = Some(t);
+            sys.add_spawner(Gated {
+                inner: StandardSpawner::new(
+                    StandardSource {
+                        address: NtpAddress(addr),
+                        ntp_version: ProtocolVersion::V4,
+                    },
+                    SourceConfig::default(),
+                ),
+                gate: gate_rx,
+                entered: entered.clone(),
+            });
+            sync().await; // first attempt: lookup, Create sent, then held at the gate
+            while let Some(ev) = sys.next_spawn_event() {
+                let _ = guarded(sys.handle_spawn_event(ev)).await;
+            }
+        } else {
+            let (mut m, sid, l) = MockSpawner::new();
+            m.complete = false;
+            log = Some(l);
+            sys.add_spawner(Gated {
+                inner: m,
+                gate: gate_rx,
+                entered: entered.clone(),
+            });
+            sync().await;
+            for i in 0..c.kinds.len() {
+                let id = ClockId::new();
+                ids.push(id);
+                let _ = guarded(sys.handle_spawn_event(SpawnEvent::new(sid, SpawnAction::Create(ntp_params(id, i))))).await;
+            }
+        }
+        sync().await;
+        let taps = sys.taps();
+        if c.real {
+            ids = taps.rows().iter().map(|r| r.key).collect();
+        }
+        obs.stalled_in_try_spawn = entered.load(Ordering::SeqCst);
+        obs.sources_before = taps.rows().len();
+        // the owner's notification channel, through the sender the system itself uses
+        let ntx = sys.notify_tx(0);
+        let free_wanted = match c.fill {
+            Fill::Empty => usize::MAX,
+            Fill::OneFree => 1,
+            Fill::Full => 0,
+        };
+        if free_wanted != usize::MAX {
+            while ntx.capacity() > free_wanted {
+                if ntx.try_send(SystemEvent::Idle).is_err() {
+                    break;
+                }
+                obs.idle_events_queued += 1;
+            }
+        }
+        obs.channel_was_full = ntx.capacity() == 0;
+        obs.lookups_at_report = tap.as_ref().and_then(|t| t.lookups()).unwrap_or(0);
+        let reported: Vec<ClockId> = ids.iter().copied().take(c.kinds.len()).collect();
+        // the reports (they may have to wait for room) || the harness opens the gate one quiescence later
+        let done = std::cell::Cell::new(false);
+        let outcomes = std::cell::RefCell::new(Vec::new());
+        let waited = {
+            let reports = async {
+                for (id, k) in reported.iter().zip(&c.kinds) {
+                    let r = guarded(sys.handle_source_update(k.msg(*id))).await;
+                    outcomes.borrow_mut().push(match r {
+                        Ok(Ok(())) => Outcome::Ok,
+                        Ok(Err(e)) => Outcome::Err(e),
+                        Err(p) => Outcome::Panic(p),
+                    });
+                }
+                done.set(true);
+            };
+            let opener = async {
+                sync().await;
+                let w = !done.get();
+                let _ = gate_tx.send(true);
+                w
+            };
+            tokio::time::timeout(Duration::from_secs(60), async { tokio::join!(reports, opener).1 }).await
+        };
+        match waited {
+            Ok(w) => obs.report_waited_for_capacity = w,
+            Err(_) => obs.deadman = true, // virtual time: fires only when nothing can make progress any more
+        }
+        obs.outcomes = outcomes.into_inner();
+        // let the spawner drain and (real spawner) get its next tickets
+        for _ in 0..4 {
+            if c.real {
+                tokio::time::sleep(Duration::from_millis(1100)).await;
+            }
+            sync().await;
+            while let Some(ev) = sys.next_spawn_event() {
+                let _ = guarded(sys.handle_spawn_event(ev)).await;
+            }
+        }
+        sync().await;
+        let rows = taps.rows();
+        obs.left_in_table = reported.iter().filter(|id| rows.iter().any(|r| r.key == **id)).count();
+        if let Some(l) = &log {
+            obs.told = l
+                .lock()
+                .unwrap()
+                .told
+                .iter()
+                .map(|(reg, id, r)| {
+                    let i = ids.iter().position(|x| x == id).map(|p| p as u8).unwrap_or(254);
+                    if *reg { Told::Reg(i) } else { Told::Rem(i, *r) }
+                })
+                .collect();
+        }
+        if let Some(t) = &tap {
+            obs.lookups_end = t.lookups().unwrap_or(usize::MAX);
+            let snaps = taps.snapshot_rows();
+            obs.new_sources = rows
+                .iter()
+                .filter(|r| !ids.contains(&r.key))
+                .map(|r| snaps.iter().find(|s| s.0 == r.key).map(|s| s.2.clone()).unwrap_or_default())
+                .collect();
+        }
+        obs
+    })
+}
+
+/// Oracle (statement): whatever the load on the owner's channel, the owner is told exactly once per reported
+/// source, with that id and the reason of the report; the real single-server spawner then re-resolves after
+/// Unreachable, respawns after NetworkIssue, never respawns after Demobilize. `None` + deadman = no verdict (cap).
+pub(super) fn judge_b(c: &BCase, o: &BObs) -> Option<Finding> {
+    let f = |code: &'static str, what: String| Some(Finding { code, what, step: 0 });
+    if o.deadman {
+        return None;
+    }
+    if !o.stalled_in_try_spawn || o.sources_before != c.kinds.len() || (c.fill == Fill::Full && !o.channel_was_full) {
+        return f("backpressure-rig", format!("set-up failed: {o:?}"));
+    }
+    for oc in &o.outcomes {
+        match oc {
+            Outcome::Ok => {}
+            Outcome::Err(e) => return f("handler-error", format!("report returned Err({e})")),
+            Outcome::Panic(p) => return f("panic", format!("report panicked: {p}")),
+        }
+    }
+    if o.left_in_table != 0 {
+        return f("source-not-removed", format!("{} reported sources still in the table", o.left_in_table));
+    }
+    if !c.real {
+        let mut want: Vec<Told> = (0..c.kinds.len() as u8).map(Told::Reg).collect();
+        for (i, k) in c.kinds.iter().enumerate() {
+            want.push(Told::Rem(i as u8, k.expected_reason()));
+        }
+        if o.told != want {
+            let got = o.told.iter().filter(|t| matches!(t, Told::Rem(..))).count();
+            let code = if got < c.kinds.len() {
+                "backpressure-removal-lost"
+            } else if got > c.kinds.len() {
+                "removal-duplicated"
+            } else {
+                "wrong-removal-reason"
+            };
+            return f(
+                code,
+                format!(
+                    "owner's channel held {} queued events ({} free) while it was inside try_spawn: it was told {:?}, want {:?}",
+                    o.idle_events_queued + c.kinds.len(),
+                    if o.channel_was_full { 0 } else { 1 },
+                    o.told,
+                    want
+                ),
+            );
+        }
+        return None;
+    }
+    let raw = dns_raw();
+    let first_of = |k: usize| raw[(raw.len() - (k % raw.len())) % raw.len()].to_string();
+    match c.kinds[0] {
+        Kind::D => {
+            if !o.new_sources.is_empty() {
+                return f("e2e-demobilized-respawned", format!("sources created after Demobilize: {:?}", o.new_sources));
+            }
+        }
+        Kind::N => {
+            if o.new_sources.len() != 1 || o.new_sources[0] != first_of(o.lookups_end) {
+                return f(
+                    "backpressure-not-respawned",
+                    format!("4 wait periods after a NetworkIssue report under backpressure: new sources {:?}", o.new_sources),
+                );
+            }
+        }
+        Kind::U => {
+            if o.new_sources.len() != 1 {
+                return f(
+                    "backpressure-not-respawned",
+                    format!("4 wait periods after an Unreachable report under backpressure: new sources {:?}", o.new_sources),
+                );
+            }
+            if o.lookups_end <= o.lookups_at_report || o.new_sources[0] != first_of(o.lookups_end) {
+                return f(
+                    "backpressure-unreachable-not-reresolved",
+                    format!(
+                        "lookups {} at the report, {} at the end; replacement polls {:?}",
+                        o.lookups_at_report, o.lookups_end, o.new_sources
+                    ),
+                );
+            }
+        }
+    }
+    None
+}
+
+// ---------------------------------------------------------------------------------------------
 // Part K: soak — nothing injected, the real source task gives up on its own
 // ---------------------------------------------------------------------------------------------
 
@@ -1290,6 +1649,16 @@ pub(super) fn replay_any(ctx: &Ctx, prefix: &str, trace: &str) -> String {
         };
         let obs = run_e2e(&evs);
         if let (Some(f), _) = judge_e2e(&evs, &obs) {
+            ctx.violation(&format!("{prefix}:system-{}", f.code), f.what, t);
+        }
+        return format!("{:?}", obs);
+    }
+    if let Some(rest) = t.strip_prefix("B:") {
+        let Some(c) = parse_b(rest) else {
+            return format!("unparsable trace {t}");
+        };
+        let obs = run_b(&c);
+        if let Some(f) = judge_b(&c, &obs) {
             ctx.violation(&format!("{prefix}:system-{}", f.code), f.what, t);
         }
         return format!("{:?}", obs);
@@ -1443,6 +1812,40 @@ fn check() {
     }
     ctx.sample("E:W,RU,W,M,rD");
 
+    // ---- part B (both tiers): reports while the owner's notification channel is (nearly) full
+    {
+        let cases = b_cases();
+        ctx.set("b_cases", cases.len() as u64);
+        for c in &cases {
+            let a = run_b(c);
+            let b = run_b(c);
+            if a != b {
+                ctx.inc("determinism_differences");
+            }
+            ctx.distinct(common::hash_of(&(c, &a)));
+            ctx.add("evaluations", 1);
+            ctx.add("transitions", (c.kinds.len() + a.idle_events_queued) as u64);
+            ctx.max("b_events_queued_in_owner_channel_max", (a.idle_events_queued + c.kinds.len()) as u64);
+            if a.channel_was_full {
+                ctx.inc("b_cases_channel_full");
+            }
+            if a.report_waited_for_capacity {
+                ctx.inc("b_reports_waited_for_capacity_until_gate_opened");
+            } else {
+                ctx.inc("b_reports_returned_before_gate_opened");
+            }
+            ctx.add("b_real_spawner_replacements", a.new_sources.len() as u64);
+            if a.deadman {
+                ctx.inc("b_deadman");
+                ctx.cap_hit(&format!("part B case {}: nothing could make progress for 60 virtual seconds; no verdict", fmt_b(c)));
+            }
+            if let Some(f) = judge_b(c, &a) {
+                all.push((f, fmt_b(c), "B"));
+            }
+        }
+        ctx.sample("B:s;F;U");
+    }
+
     // ---- part K
     let k_n = if quick { 3 } else { 6 };
     let soak = run_soak(k_n);
@@ -1460,6 +1863,6 @@ fn check() {
     for (f, t, part) in all {
         ctx.violation(&format!("C36:system-{}", f.code), f.what, format!("{part}:{t}"));
     }
-    ctx.exhaustive(true);
+    ctx.exhaustive(ctx.get("b_deadman") == 0);
     ctx.finish();
 }
